@@ -136,22 +136,24 @@ Theorem pca_centering (nrow ncol : nat) (A : mat) : wf_mat nrow ncol A ->
 Proof. exact (pca_centering_both nrow ncol A). Qed.
 Print Assumptions pca_centering.
 
-(** RECORDED FINDINGS (PCA): [PCA.fit] never reads [normalized] (the model [pca_fit] ignores it), and
-    [PCA.predict] is GSVD.predict with [weights_col_ = None] (TypeError).  [normalized_unit_norm] and
-    [gsvd_predict_reproduces_fit] therefore speak of [normalize2] / [gsvd_predict_row], which Spectral, GSVD,
-    SVD and RandomProjection use and PCA does not. *)
-Theorem pca_normalized_refuted :
-  exists (sU : mat) (sS : vec) (sV : mat) (i : nat),
-    let '(emb_row, _, _) := pca_fit true sU sS sV in
-    ~ Forall (fun x => x == 0) (nth i emb_row []) /\ ~ sqnorm (nth i emb_row []) == 1.
-Proof. exact EmbeddingProofs.pca_normalized_refuted. Qed.
-Print Assumptions pca_normalized_refuted.
+(** (A3') PCA.predict (code repaired by 11827c95: fit normalises both embeddings when asked and stores
+    mean_col_; predict(x) = (x V - mean_col V) / sigma) reproduces the fitted row, given the singular
+    equation of the centred operator and sigma_k <> 0.  The defects of the former code are kept as
+    [legacy_pca_normalized_refuted] / [legacy_pca_predict_refuted] in Proofs/EmbeddingProofs.v
+    (models [pca_fit_legacy], [pca_predict_row_legacy]). *)
+Theorem pca_predict_reproduces_fit (norm_o : Q -> Q) (normalized : bool) (nrow ncol : nat) (A : mat)
+        (sU : mat) (sS : vec) (sV : mat) (i : nat) :
+  wf_mat nrow ncol A -> wf_mat nrow (length sS) sU -> length sV = ncol -> (i < nrow)%nat ->
+  Proper (Qeq ==> Qeq) norm_o ->
+  (forall k, (k < length sS)%nat ->
+     slr_matvec (pca_operator nrow ncol A) (col k sV) =v vscale (nthq sS k) (col k sU) /\ ~ nthq sS k == 0) ->
+  let '(emb_row, emb_col, sv) := pca_fit norm_o normalized sU sS sV in
+  pca_predict_row norm_o normalized (pca_mean_col nrow ncol A) sv sV (nth i A []) =v nth i emb_row [].
+Proof. exact (pca_predict_reproduces_fit_full norm_o normalized nrow ncol A sU sS sV i). Qed.
+Print Assumptions pca_predict_reproduces_fit.
 
-Theorem pca_predict_refuted (x : vec) : pca_predict_row None x = inr TypeError.
-Proof. exact (EmbeddingProofs.pca_predict_refuted x). Qed.
-Print Assumptions pca_predict_refuted.
-
-(** (A4) normalize(p = 2): every non-null row gets squared norm 1 (null rows stay null). *)
+(** (A4) normalize(p = 2) (used by Spectral, GSVD, SVD, PCA, RandomProjection): every non-null row gets
+    squared norm 1 (null rows stay null). *)
 Theorem normalized_unit_norm (norm_o : Q -> Q) (E : mat) (i : nat) :
   (i < length E)%nat ->
   (let s := sqnorm (nth i E []) in norm_o s * norm_o s == s) ->
